@@ -344,7 +344,7 @@ func (tr *Addition) Add(write func(w *Writer) error) error {
 		return ErrLockFailure
 	}
 
-	if err := tr.stack.checkAddition(tab.Name()); err != nil {
+	if err := tr.checkAddition(tab.Name()); err != nil {
 		return err
 	}
 
@@ -401,9 +401,38 @@ func (tr *Addition) Commit() error {
 	return tr.stack.reload(true)
 }
 
-func (s *Stack) checkAddition(tabname string) error {
+// checkAddition validates the names in the new table against the
+// stack and the tables added earlier in the same transaction.
+func (tr *Addition) checkAddition(tabname string) error {
+	s := tr.stack
 	if s.cfg.SkipNameCheck {
 		return nil
+	}
+	view := Table(s.Merged())
+	if len(tr.newTables) > 0 {
+		var tabs []Table
+		for _, r := range s.stack {
+			tabs = append(tabs, r)
+		}
+		for _, nm := range tr.newTables {
+			bs, err := NewFileBlockSource(filepath.Join(s.reftableDir, nm))
+			if err != nil {
+				return err
+			}
+			r, err := NewReader(bs, nm)
+			if err != nil {
+				bs.Close()
+				return err
+			}
+			defer r.Close()
+			tabs = append(tabs, r)
+		}
+		m, err := NewMerged(tabs, s.cfg.HashID)
+		if err != nil {
+			return err
+		}
+		m.suppressDeletions = true
+		view = m
 	}
 	bs, err := NewFileBlockSource(tabname)
 	if err != nil {
@@ -432,7 +461,7 @@ func (s *Stack) checkAddition(tabname string) error {
 		recs = append(recs, rec)
 	}
 
-	return validateRefRecordAddition(s.Merged(), recs)
+	return validateRefRecordAddition(view, recs)
 }
 
 // non-deterministic random generator.
